@@ -302,6 +302,9 @@ class Relay:
         self.ls.listen(1)
         self.port = self.ls.getsockname()[1]
         self.up = None
+        self.down = None
+        self.killed = False
+        self.server_closed = False
         self.threads = []
         self.t = threading.Thread(target=self._accept, daemon=True)
         self.t.start()
@@ -314,6 +317,7 @@ class Relay:
         s = socket.create_connection(self.target, timeout=5)
         s.settimeout(None)
         self.up = s
+        self.down = c
         self.upstream_peer = s.getsockname()
         for a, b, tag in ((c, s, "C"), (s, c, "S")):
             th = threading.Thread(target=self._pump, args=(a, b, tag), daemon=True)
@@ -332,10 +336,23 @@ class Relay:
                 b.sendall(d)
         except OSError:
             pass
+        if tag == "S":
+            self.server_closed = True
         try:
             b.shutdown(socket.SHUT_WR)
         except OSError:
             pass
+
+    def kill(self):
+        """cut both connections (a client looping forever on an unexpected reply gets a socket error)"""
+        self.killed = True
+        self.server_closed = True
+        for sk in (self.down, self.up):
+            try:
+                if sk is not None:
+                    sk.shutdown(socket.SHUT_RDWR)
+            except OSError:
+                pass
 
     def close(self):
         try:
